@@ -212,6 +212,7 @@ type selectStmt struct {
 	where     sqlExpr
 	order     []orderItem
 	limit     *int
+	offset    int
 	forUpdate bool
 	unionAll  []*selectStmt
 }
@@ -528,8 +529,14 @@ func (p *sqlParser) selectCore() *selectStmt {
 		fmt.Sscanf(t.s, "%d", &n)
 		s.limit = &n
 	}
-	if p.isKw("offset") {
-		p.fail("OFFSET")
+	if p.acceptKw("offset") {
+		t := p.next()
+		if t.kind != tNumber {
+			p.fail("OFFSET %q", t.s)
+		}
+		n := 0
+		fmt.Sscanf(t.s, "%d", &n)
+		s.offset = n
 	}
 	if p.acceptKw("for") {
 		p.expectKw("update")
